@@ -28,6 +28,7 @@ type Stats struct {
 	MaxQuery            time.Duration
 	Fallbacks           int
 	Cvc5                int
+	CacheHits           int
 }
 
 // Solver drives one long-lived SMT-LIB2 solver process over a pipe.
